@@ -11,7 +11,7 @@ import minigo
 
 TYPES = {
     "S": "string", "B": "[]byte", "P": "*box", "PP": "*box", "PS": "*string", "ST": "box", "SP": "box", "PR": "pair",
-    "SL": "[]string", "AR": "[2]string", "M": "map[string]string", "MK": "map[string]string", "I": "any",
+    "SL": "[]string", "PSL": "*[]string", "AR": "[2]string", "M": "map[string]string", "MK": "map[string]string", "I": "any",
     "IB": "any", "IF": "getter", "C": "func() string", "CH": "chan string",
 }
 
@@ -196,6 +196,32 @@ def s_addr(e, x):
 
 def s_deref(e, x):
     y = e.out("S"); e.f.load(y, x); return y
+
+
+def s_addrsl(e, x):
+    # pointer to a pointer-like variable: the analysis answers *y through an INDIRECT query
+    y = e.out("PSL"); e.f.addr(y, x); return y
+
+
+def s_derefsl(e, x):
+    y = e.out("SL"); e.f.load(y, x); return y
+
+
+def h_getsl(P):
+    # one block, no call (not even enter()): the pointer analysis analyses such accessors once per call site
+    h = P.func("getsl", params=[("slot", "*[]string")], results=["[]string"], noenter=True)
+    h.var("r", "[]string")
+    h.load("r", "slot")
+    h.ret(["r"])
+    return "getsl"
+
+
+def s_slotsl(e, x):
+    g = e.helper("getsl", h_getsl)
+    o = e.tmp("[]string"); e.f.mkslice(o, ["_"])
+    po = e.tmp("*[]string"); e.f.addr(po, o)
+    d0 = e.tmp("[]string"); e.f.call([d0], g, [po])
+    y = e.out("SL"); e.f.call([y], g, [x]); return y
 
 
 def s_newstr(e, x):
@@ -756,6 +782,9 @@ STEPS = {
     "addr": ("S", "PS", "field", s_addr),
     "deref": ("PS", "S", "field", s_deref),
     "newstr": ("S", "PS", "field", s_newstr),
+    "addrsl": ("SL", "PSL", "container", s_addrsl),
+    "derefsl": ("PSL", "SL", "container", s_derefsl),
+    "slotsl": ("PSL", "SL", "call", s_slotsl),
     "structcopy": ("P", "P", "field", s_structcopy),
     "mkstruct": ("S", "ST", "field", s_mkstruct),
     "field": ("ST", "S", "field", s_field),
@@ -842,7 +871,7 @@ STEPS = {
 FLOW_FAMS = sorted({v[2] for v in STEPS.values()} - {"role"})
 
 # type-states whose carrier can be handed to sink() with the datum reachable from it
-SINKABLE = {"S", "B", "P", "PP", "PS", "ST", "SP", "PR", "SL", "AR", "M", "MK", "I", "IB", "IF", "G", "GP"}
+SINKABLE = {"S", "B", "P", "PP", "PS", "ST", "SP", "PR", "SL", "PSL", "AR", "M", "MK", "I", "IB", "IF", "G", "GP"}
 
 DECORATIONS = ["plain", "then", "else", "loop", "helper", "iife", "killafter"]
 
@@ -925,7 +954,7 @@ def run_in_goroutine(ctx, f, body, uses):
     return y
 
 
-PROBEABLE = {"P", "PP", "PS", "SL", "M", "MK", "B", "GP", "CH"}
+PROBEABLE = {"P", "PP", "PS", "SL", "PSL", "M", "MK", "B", "GP", "CH"}
 
 
 def build_chain(chain, sink_kind="sink", name="p", source_kind="source", probes=False, src_in_go=False,
